@@ -13,32 +13,40 @@ From RtoscV Require Import Match.PatSpec Match.MatchModel Match.MatchProofs
 Import ListNotations.
 Local Open Scope Z_scope.
 
-(* ---- keys and shapes ------------------------------------------------------------------- *)
-(* shape (NamesModel.v): a string with every maximal digit run replaced by '#';
-   key l = shape (rep0 l), rep0 = the name with each '#N' written as one digit *)
-Lemma rep0_cons s r :
-  rep0 (s :: r) = (match s with NameModel.Lit t => t | NameModel.Enum _ => [48] end) ++ rep0 r.
+(* ---- tokens ------------------------------------------------------------------------------ *)
+(* what a token list spells: a literal character itself, a '#N' any non-empty digit string *)
+Inductive tspells : list tok -> list Z -> Prop :=
+| TsNil : tspells [] []
+| TsC : forall c a y, tspells a y -> tspells (TC c :: a) (c :: y)
+| TsH : forall d a y, d <> [] -> digits d -> tspells a y -> tspells (TH :: a) (d ++ y).
+
+(* behind a '#N' comes the end or a literal character that is no digit *)
+Fixpoint tokwf (a : list tok) : Prop :=
+  match a with
+  | [] => True
+  | TH :: r => match r with [] => True | TC c :: _ => isdigit c = false | TH :: _ => False end /\ tokwf r
+  | TC _ :: r => tokwf r
+  end.
+
+Definition comparable (a b : list Z) : Prop := prefix a b \/ prefix b a.
+Definition nd (y : list Z) : Prop := match y with [] => True | c :: _ => isdigit c = false end.
+
+Lemma toks_cons s r : toks (s :: r) = (match s with NameModel.Lit t => map TC t | NameModel.Enum _ => [TH] end) ++ toks r.
 Proof. reflexivity. Qed.
 
-Lemma rep0_app a b : rep0 (a ++ b) = rep0 a ++ rep0 b.
-Proof. unfold rep0. rewrite map_app, concat_app. reflexivity. Qed.
+Lemma toks_app a b : toks (a ++ b) = toks a ++ toks b.
+Proof. unfold toks. apply flat_map_app. Qed.
 
-(* a non-empty digit string in front: one '#' (none inside a run), whatever the digits *)
-Lemma digits_shape d : digits d -> d <> [] -> forall b u,
-  shape_aux b (d ++ u) = (if b then [] else [35]) ++ shape_aux true u.
-Proof.
-  assert (G : forall d u, digits d -> shape_aux true (d ++ u) = shape_aux true u).
-  { induction d0 as [|c d0 IH]; intros u Hd; [reflexivity|].
-    inversion Hd as [|? ? Hc Hx]; subst. cbn [app shape_aux]. rewrite Hc. apply IH; assumption. }
-  intros Hd Hne b u. destruct d as [|c d]; [congruence|]. inversion Hd as [|? ? Hc Hx]; subst.
-  cbn [app shape_aux]. rewrite Hc. destruct b; cbn [app]; [|f_equal]; apply G; assumption.
-Qed.
+Lemma tspells_lit t : forall a y, tspells a y -> tspells (map TC t ++ a) (t ++ y).
+Proof. induction t as [|c t IH]; intros a y H; [exact H|]. cbn [map app]. constructor. apply IH. exact H. Qed.
 
-Lemma shape_aux_common s : forall b u v,
-  (forall b', shape_aux b' u = shape_aux b' v) -> shape_aux b (s ++ u) = shape_aux b (s ++ v).
+Lemma tspells_app a : forall b x y, tspells a x -> tspells b y -> tspells (a ++ b) (x ++ y).
 Proof.
-  induction s as [|c s IH]; intros b u v H; [apply H|].
-  cbn [app shape_aux]. destruct (isdigit c); [destruct b|]; rewrite (IH _ u v H); reflexivity.
+  induction a as [|t a IH]; intros b x y Ha Hb.
+  - inversion Ha; subst. exact Hb.
+  - inversion Ha; subst; cbn [app].
+    + constructor. apply IH; assumption.
+    + rewrite <- app_assoc. constructor; try assumption. apply IH; assumption.
 Qed.
 
 Lemma spells_nil_inv z : spells [] z -> z = [].
@@ -56,33 +64,109 @@ Proof.
   exists x, y. repeat split; assumption.
 Qed.
 
-(* whatever spells a name has, digit runs collapsed, the shape of the name's rep0:
-   literal text is copied, an index and the digit standing for '#N' both give one
-   '#' (or vanish inside a digit run of the surrounding literal text) *)
-Lemma spells_shape l : forall x t, spells (map conv l) x ->
-  forall b, shape_aux b (x ++ t) = shape_aux b (rep0 l ++ t).
+(* whatever spells a name (as a C05 pattern) is spelled by its tokens *)
+Lemma spells_tspells l : forall x, spells (map conv l) x -> tspells (toks l) x.
 Proof.
-  induction l as [|[s|n] l IH]; intros x t Hs b.
-  - apply spells_nil_inv in Hs. subst. reflexivity.
+  induction l as [|[s|n] l IH]; intros x Hs.
+  - apply spells_nil_inv in Hs. subst. constructor.
   - cbn [map conv] in Hs. apply spells_lit_inv in Hs. destruct Hs as [y [-> Hy]].
-    rewrite rep0_cons, <- !app_assoc. apply shape_aux_common. intros b'. apply IH. exact Hy.
+    rewrite toks_cons. apply tspells_lit. apply IH. exact Hy.
   - cbn [map conv] in Hs. apply spells_enum_inv in Hs. destruct Hs as [x1 [y [-> [Hne [Hdg Hy]]]]].
-    rewrite rep0_cons, <- !app_assoc.
-    rewrite (digits_shape x1 Hdg Hne), (digits_shape [48]); [|constructor; [reflexivity | constructor] | discriminate].
-    f_equal. apply IH. exact Hy.
+    rewrite toks_cons. cbn [app]. constructor; try assumption. apply IH. exact Hy.
 Qed.
 
-(* shaping preserves "is a prefix of" *)
-Lemma shape_prefix m : forall b t, prefix (shape_aux b m) (shape_aux b (m ++ t)).
+Lemma tokwf_lit t a : tokwf (map TC t ++ a) <-> tokwf a.
+Proof. induction t as [|c t IH]; [reflexivity|]. cbn [map app tokwf]. exact IH. Qed.
+
+Lemma dsegs_tokwf l : dsegs_wf l -> tokwf (toks l).
 Proof.
-  induction m as [|c m IH]; intros b t; [exact I|].
-  cbn [app shape_aux]. destruct (isdigit c).
-  - destruct b; [apply IH | split; [reflexivity | apply IH]].
-  - split; [reflexivity | apply IH].
+  induction l as [|[s|n] l IH]; intros H; [exact I| |].
+  - destruct H as [_ [_ Hr]]. rewrite toks_cons. apply tokwf_lit. apply IH. exact Hr.
+  - destruct H as [_ [Hnx Hr]]. rewrite toks_cons. cbn [app tokwf]. split; [|apply IH; exact Hr].
+    destruct l as [|[s|n'] l]; [exact I| |contradiction].
+    destruct Hr as [Hne _]. destruct s as [|c s]; [congruence|]. rewrite toks_cons. cbn [map app]. exact Hnx.
 Qed.
 
-Lemma shape_prefix' a b : prefix a b -> prefix (shape a) (shape b).
-Proof. intros H. apply prefix_app in H. destruct H as [t ->]. apply shape_prefix. Qed.
+Lemma tokwf_snoc a c : isdigit c = false -> tokwf a -> tokwf (a ++ [TC c]).
+Proof.
+  intros Hc. induction a as [|t a IH]; intros H; [exact I|]. destruct t as [d|]; cbn [app tokwf] in *.
+  - apply IH. exact H.
+  - destruct H as [Hn Hr]. split; [|apply IH; exact Hr].
+    destruct a as [|[d|] a]; cbn [app]; [exact Hc | exact Hn | contradiction].
+Qed.
+
+Lemma clashb_nil_r a : clashb a [] = true.
+Proof. destruct a as [|[c|] a]; reflexivity. Qed.
+
+Lemma tspells_nil a : tspells a [] -> a = [].
+Proof.
+  intros H. inversion H as [| |d a' y Hne Hd Hy E1 E2]; subst; [reflexivity|].
+  destruct d; [congruence | discriminate].
+Qed.
+
+(* two digit runs at the same place of two comparable strings, each followed by
+   the end or by a non-digit: the runs are the same, or one string ends with its run *)
+Lemma digit_runs_align : forall d1 d2 y1 y2,
+  digits d1 -> digits d2 -> nd y1 -> nd y2 -> comparable (d1 ++ y1) (d2 ++ y2) ->
+  (d1 = d2 /\ comparable y1 y2) \/ y1 = [] \/ y2 = [].
+Proof.
+  induction d1 as [|c1 d1 IH]; intros d2 y1 y2 H1 H2 N1 N2 Hc.
+  - destruct d2 as [|c2 d2]; [left; split; [reflexivity | exact Hc]|].
+    destruct y1 as [|c y1]; [right; left; reflexivity|]. exfalso.
+    inversion H2 as [|? ? Hd _]; subst. cbn [app nd] in *.
+    destruct Hc as [[E _]|[E _]]; subst; congruence.
+  - inversion H1 as [|? ? Hd1 H1']; subst. destruct d2 as [|c2 d2].
+    + destruct y2 as [|c y2]; [right; right; reflexivity|]. exfalso. cbn [app nd] in *.
+      destruct Hc as [[E _]|[E _]]; subst; congruence.
+    + inversion H2 as [|? ? Hd2 H2']; subst. cbn [app] in Hc.
+      assert (E : c1 = c2 /\ comparable (d1 ++ y1) (d2 ++ y2)).
+      { destruct Hc as [[E P]|[E P]]; subst; split; try reflexivity; [left | right]; exact P. }
+      destruct E as [-> Hc']. destruct (IH d2 y1 y2 H1' H2' N1 N2 Hc') as [[-> Hy]|[E|E]]; auto.
+Qed.
+
+Lemma tokwf_tail_nd a y : match a with [] => True | TC c :: _ => isdigit c = false | TH :: _ => False end ->
+  tspells a y -> nd y.
+Proof.
+  intros Hw Hs. destruct a as [|[c|] a]; inversion Hs; subst; [exact I | exact Hw | contradiction].
+Qed.
+
+(* names that spell comparable strings clash *)
+Lemma clash_sound : forall a b x1 x2,
+  tokwf a -> tokwf b -> tspells a x1 -> tspells b x2 -> comparable x1 x2 -> clashb a b = true.
+Proof.
+  induction a as [|t a IH]; intros b x1 x2 Wa Wb S1 S2 Hc; [reflexivity|].
+  destruct b as [|u b]; [apply clashb_nil_r|].
+  destruct t as [c|], u as [d|]; cbn [clashb tokwf] in *.
+  - inversion S1; subst. inversion S2; subst.
+    assert (E : c = d /\ comparable y y0).
+    { destruct Hc as [[E P]|[E P]]; subst; split; try reflexivity; [left | right]; exact P. }
+    destruct E as [-> Hc']. rewrite Z.eqb_refl. cbn [andb]. eapply IH; eassumption.
+  - inversion S1; subst. inversion S2 as [| |dd b' y2 Hne Hd Hy]; subst.
+    destruct dd as [|d0 dd]; [congruence|]. inversion Hd; subst. cbn [app] in Hc.
+    destruct Hc as [[E _]|[E _]]; subst; assumption.
+  - inversion S2; subst. inversion S1 as [| |dd a' y1 Hne Hd Hy]; subst.
+    destruct dd as [|d0 dd]; [congruence|]. inversion Hd; subst. cbn [app] in Hc.
+    destruct Hc as [[E _]|[E _]]; subst; assumption.
+  - inversion S1 as [| |d1 a' y1 Hne1 Hd1 Hy1]; subst. inversion S2 as [| |d2 b' y2 Hne2 Hd2 Hy2]; subst.
+    destruct Wa as [Na Wa]. destruct Wb as [Nb Wb].
+    destruct (digit_runs_align d1 d2 y1 y2 Hd1 Hd2 (tokwf_tail_nd a y1 Na Hy1) (tokwf_tail_nd b y2 Nb Hy2) Hc)
+      as [[_ Hy]|[E|E]].
+    + eapply IH; eassumption.
+    + subst. rewrite (tspells_nil a Hy1). reflexivity.
+    + subst. rewrite (tspells_nil b Hy2). apply clashb_nil_r.
+Qed.
+
+(* a name whose spelling begins a literal text clashes with every name that
+   begins with that text *)
+Lemma clash_lit_prefix : forall a x t c, tspells a x -> prefix x t -> clashb a (map TC t ++ c) = true.
+Proof.
+  induction a as [|u a IH]; intros x t c S P; [reflexivity|].
+  inversion S as [|c0 a' y Hy|d a' y Hne Hd Hy]; subst.
+  - destruct t as [|c1 t]; [contradiction|]. destruct P as [-> P]. cbn [map app clashb].
+    rewrite Z.eqb_refl. cbn [andb]. eapply IH; eassumption.
+  - destruct d as [|d0 d]; [congruence|]. inversion Hd; subst. cbn [app] in P.
+    destruct t as [|c1 t]; [contradiction|]. destruct P as [-> P]. cbn [map app clashb]. assumption.
+Qed.
 
 (* ---- one port: what a match tells about the address ------------------------------------ *)
 (* the name conditions used below, per port *)
@@ -111,24 +195,25 @@ Definition no35 (c : Z) : Prop := c <> 35.
 Lemma dchar_no35 c : dchar c -> no35 c. Proof. unfold dchar, no35. lia. Qed.
 Lemma digit_no35 c : isdigit c = true -> no35 c. Proof. intros H. apply isdigit_range in H. unfold no35. lia. Qed.
 
-Lemma comps_rep0 cs : cs <> [] -> rep0 (comps_segs cs) = rep0 (comps_conv cs) ++ [47].
+Lemma comps_toks cs : cs <> [] -> toks (comps_segs cs) = toks (comps_conv cs) ++ [TC 47].
 Proof.
   induction cs as [|c r IH]; intros Hne; [congruence|].
-  rewrite comps_segs_cons, rep0_app.
-  assert (H1 : rep0 (comp_segs c) = rep0 (comp_conv c) ++ [47]).
-  { destruct c as [t [n|]]; unfold rep0; cbn [comp_segs comp_conv map concat]; rewrite ?app_nil_r, <- ?app_assoc; reflexivity. }
+  rewrite comps_segs_cons, toks_app.
+  assert (H1 : toks (comp_segs c) = toks (comp_conv c) ++ [TC 47]).
+  { destruct c as [t [n|]]; unfold toks; cbn [comp_segs comp_conv flat_map map app];
+      rewrite ?app_nil_r, ?map_app, <- ?app_assoc; reflexivity. }
   rewrite H1. destruct r as [|c' r']; cbn [comps_conv].
-  - cbn [comps_segs flat_map]. unfold rep0 at 2. cbn [map concat]. rewrite !app_nil_r. reflexivity.
-  - rewrite IH by discriminate. rewrite rep0_app, rep0_cons. rewrite <- !app_assoc. reflexivity.
+  - cbn [comps_segs flat_map]. unfold toks at 2. cbn [flat_map]. rewrite !app_nil_r. reflexivity.
+  - rewrite IH by discriminate. rewrite toks_app, toks_cons. cbn [map]. rewrite <- !app_assoc. reflexivity.
 Qed.
 
-(* a matching port: the address begins with a '#'-free text whose shape is the
-   port's key *)
-Lemma match_shape q m r pe :
+(* a matching port: the address begins with a '#'-free text that the port's
+   tokens spell *)
+Lemma match_toks q m r pe :
   pok q -> addr_ok m -> match_path (sname q) m = MRet r pe ->
-  exists m', prefix m' m /\ Forall no35 m' /\ shape m' = skey q.
+  tokwf (stoks q) /\ exists m', prefix m' m /\ Forall no35 m' /\ tspells (stoks q) m'.
 Proof.
-  intros Hq Haddr Hm. destruct q as [sg a mt [l|]]; cbn [pok sname skey] in *.
+  intros Hq Haddr Hm. destruct q as [sg a mt [l|]]; cbn [pok sname stoks] in *.
   - destruct Hq as [-> [cs [-> [Hcs Hc]]]].
     pose proof (comps_conv_wf cs Hc) as Hw.
     set (p := {| segs := map conv (comps_conv cs); subtree := true; types := None |}).
@@ -141,10 +226,11 @@ Proof.
         [apply conv_seg_ok; exact Hw | apply conv_enum_sep; exact Hw | intros E; discriminate]. }
     destruct (path_sound p m r pe Hwf Haddr Hm) as [_ Hsp].
     unfold path_spec, p in Hsp. cbn [subtree segs] in Hsp. destruct Hsp as [x [Hx ->]].
+    rewrite (comps_toks cs Hcs). split; [apply tokwf_snoc; [reflexivity | apply dsegs_tokwf; exact Hw]|].
     exists (x ++ [47]). split; [|split].
     + apply prefix_app. exists pe. rewrite <- app_assoc. reflexivity.
     + apply Forall_app. split; [apply (spells_chars no35 _ dchar_no35 digit_no35 Hw x Hx) | constructor; [unfold no35; lia | constructor]].
-    + unfold key, shape. rewrite (comps_rep0 cs Hcs). apply spells_shape. exact Hx.
+    + apply tspells_app; [apply spells_tspells; exact Hx | repeat constructor].
   - destruct Hq as [Hw [Hls [tys [-> Ht]]]].
     set (p := {| segs := map conv sg; subtree := false; types := tys |}).
     assert (Hr : render_name sg (render_types tys) = PatSpec.render p).
@@ -156,20 +242,20 @@ Proof.
         [apply conv_seg_ok; exact Hw | apply conv_enum_sep; exact Hw | intros _; exact Hls | exact Ht]. }
     destruct (path_sound p m r pe Hwf Haddr Hm) as [_ Hsp].
     unfold path_spec, p in Hsp. cbn [subtree segs] in Hsp. destruct Hsp as [Hx ->].
+    split; [apply dsegs_tokwf; exact Hw|].
     exists m. split; [apply prefix_refl | split].
     + apply (spells_chars no35 _ dchar_no35 digit_no35 Hw m Hx).
-    + unfold key, shape. pose proof (spells_shape sg m [] Hx false) as E. rewrite !app_nil_r in E. exact E.
+    + apply spells_tspells. exact Hx.
 Qed.
 
 (* ---- the raw name: its leading literal text --------------------------------------------- *)
 Fixpoint lead (l : list NameModel.seg) : list Z :=
   match l with NameModel.Lit s :: r => s ++ lead r | _ => [] end.
 
-Lemma lead_rep0 l : prefix (lead l) (rep0 l).
+Lemma lead_toks l : exists c, toks l = map TC (lead l) ++ c.
 Proof.
-  induction l as [|[s|n] l IH]; [exact I| |exact I].
-  cbn [lead]. rewrite rep0_cons. apply prefix_app.
-  apply prefix_app in IH. destruct IH as [r ->]. exists r. rewrite app_assoc. reflexivity.
+  induction l as [|[s|n] l IH]; [exists []; reflexivity| |exists (toks (NameModel.Enum n :: l)); reflexivity].
+  destruct IH as [c E]. exists c. rewrite toks_cons, E. cbn [lead]. rewrite map_app, <- app_assoc. reflexivity.
 Qed.
 
 (* the raw name is its leading literal text, followed by nothing, a '#' or a ':' *)
@@ -205,26 +291,26 @@ Qed.
 
 Definition pargs_ok (q : sport) : Prop := match q with SPort _ a _ _ => a = [] \/ hd0 a = 58 end.
 
-(* ---- two siblings answering one path have prefix-related keys ---------------------------- *)
+(* ---- two siblings answering one path clash ---------------------------------------------------- *)
 Lemma two_matches q q' m r pe r' pe' :
   pok q -> pok q' -> addr_ok m ->
   match_path (sname q) m = MRet r pe -> match_path (sname q') m = MRet r' pe' ->
-  prefix (skey q) (skey q') \/ prefix (skey q') (skey q).
+  clashb (stoks q) (stoks q') = true.
 Proof.
   intros Hq Hq' Ha Hm Hm'.
-  destruct (match_shape q m r pe Hq Ha Hm) as [m1 [P1 [_ E1]]].
-  destruct (match_shape q' m r' pe' Hq' Ha Hm') as [m2 [P2 [_ E2]]].
-  rewrite <- E1, <- E2. apply (prefix_comparable _ _ (shape m)); apply shape_prefix'; assumption.
+  destruct (match_toks q m r pe Hq Ha Hm) as [W1 [m1 [P1 [_ S1]]]].
+  destruct (match_toks q' m r' pe' Hq' Ha Hm') as [W2 [m2 [P2 [_ S2]]]].
+  apply (clash_sound _ _ m1 m2 W1 W2 S1 S2). apply (prefix_comparable _ _ m); assumption.
 Qed.
 
 Lemma match_and_rawprefix q q' m r pe :
   pok q -> pargs_ok q' -> addr_ok m ->
   match_path (sname q) m = MRet r pe -> NameModel.prefixb m (sname q') = true ->
-  prefix (skey q) (skey q').
+  clashb (stoks q) (stoks q') = true.
 Proof.
   intros Hq Hargs Ha Hm Hp.
-  destruct (match_shape q m r pe Hq Ha Hm) as [m' [Hm' [H35 Hk]]].
-  destruct q' as [sg' a' mt' s']. cbn [sname skey pargs_ok] in *.
+  destruct (match_toks q m r pe Hq Ha Hm) as [_ [m' [Hm' [H35 Hk]]]].
+  destruct q' as [sg' a' mt' s']. cbn [sname stoks pargs_ok] in *.
   unfold render_name in Hp. fold (flatten sg') in Hp.
   destruct (raw_lead sg' a' Hargs) as [rest [E Hrest]]. rewrite E in Hp.
   assert (Hpm : prefix m (lead sg' ++ rest)).
@@ -235,13 +321,21 @@ Proof.
     destruct Hrest as [->|[Hr|Hr]]; [left; reflexivity | |]; right; rewrite Hr; intros Hin.
     - rewrite Forall_forall in H35. apply (H35 35 Hin). reflexivity.
     - pose proof (prefix_forall m' m Hm' Ha) as Ha'. rewrite Forall_forall in Ha'. destruct (Ha' 58 Hin) as [_ Hc]. apply Hc. reflexivity. }
-  rewrite <- Hk. unfold key. apply shape_prefix'. eapply prefix_trans'; [exact Hm'l | apply lead_rep0].
+  destruct (lead_toks sg') as [c Ec]. rewrite Ec. eapply clash_lit_prefix; eassumption.
 Qed.
 
 (* ---- the tables -------------------------------------------------------------------------- *)
-(* no key is a prefix of the key of another port of the table *)
+(* no two ports of the table clash *)
 Definition keys_free (l : list sport) : Prop :=
-  forall i j q q', nth_error l i = Some q -> nth_error l j = Some q' -> prefix (skey q) (skey q') -> i = j.
+  forall i j q q', nth_error l i = Some q -> nth_error l j = Some q' -> clashb (stoks q) (stoks q') = true -> i = j.
+
+Lemma clashb_sym a : forall b, clashb a b = clashb b a.
+Proof.
+  induction a as [|t a IH]; intros b; [symmetry; apply clashb_nil_r|].
+  destruct b as [|u b]; [rewrite clashb_nil_r; reflexivity|]. destruct t as [c|], u as [d|]; cbn [clashb]; try reflexivity.
+  - rewrite (Z.eqb_sym c d), IH. reflexivity.
+  - apply IH.
+Qed.
 
 Lemma pok_args q : pok q -> pargs_ok q.
 Proof.
@@ -256,9 +350,7 @@ Proof.
   intros Hl Hk j j' q q' m ty pe pe' E E' Ha Hm Hm'.
   rewrite Forall_forall in Hl.
   destruct (rtosc_match_path_of _ _ _ _ Hm) as [r Hr]. destruct (rtosc_match_path_of _ _ _ _ Hm') as [r' Hr'].
-  destruct (two_matches q q' m r pe r' pe' (Hl _ (nth_error_In _ _ E)) (Hl _ (nth_error_In _ _ E')) Ha Hr Hr') as [H|H].
-  - exact (Hk j j' q q' E E' H).
-  - symmetry. exact (Hk j' j q' q E' E H).
+  exact (Hk j j' q q' E E' (two_matches q q' m r pe r' pe' (Hl _ (nth_error_In _ _ E)) (Hl _ (nth_error_In _ _ E')) Ha Hr Hr')).
 Qed.
 
 Theorem keys_lookup_disjoint l : Forall pok l -> keys_free l -> lookup_disjoint l.
@@ -267,9 +359,7 @@ Proof.
   rewrite Forall_forall in Hl.
   pose proof (Hl _ (nth_error_In _ _ E)) as Hq. pose proof (Hl _ (nth_error_In _ _ E')) as Hq'.
   destruct Hans as [[r' [pe' Hm']] | [_ Hp]].
-  - destruct (two_matches q q' m r pe r' pe' Hq Hq' Ha Hm Hm') as [H|H].
-    + exact (Hk j j' q q' E E' H).
-    + symmetry. exact (Hk j' j q' q E' E H).
+  - exact (Hk j j' q q' E E' (two_matches q q' m r pe r' pe' Hq Hq' Ha Hm Hm')).
   - exact (Hk j j' q q' E E' (match_and_rawprefix q q' m r pe Hq (pok_args q' Hq') Ha Hm Hp)).
 Qed.
 
@@ -423,19 +513,17 @@ Proof.
   rewrite andb_true_iff, Z.eqb_eq, IH. tauto.
 Qed.
 
-Lemma keys_freeb_ok l : keys_freeb (map skey l) = true -> keys_free l.
+Lemma keys_freeb_ok l : keys_freeb (map stoks l) = true -> keys_free l.
 Proof.
   induction l as [|p l IH]; intros H i j q q' Ei Ej Hp; [destruct i; discriminate|].
   cbn [map keys_freeb] in H. apply andb_true_iff in H. destruct H as [Hall Hr].
   rewrite forallb_forall in Hall.
   destruct i as [|i], j as [|j]; cbn [nth_error] in *.
   - reflexivity.
-  - exfalso. inversion Ei; subst. specialize (Hall (skey q') (in_map skey _ _ (nth_error_In _ _ Ej))).
-    apply andb_true_iff in Hall. destruct Hall as [H1 _]. apply negb_true_iff in H1.
-    apply prefixb_iff in Hp. congruence.
-  - exfalso. inversion Ej; subst. specialize (Hall (skey q) (in_map skey _ _ (nth_error_In _ _ Ei))).
-    apply andb_true_iff in Hall. destruct Hall as [_ H2]. apply negb_true_iff in H2.
-    apply prefixb_iff in Hp. congruence.
+  - exfalso. inversion Ei; subst. specialize (Hall (stoks q') (in_map stoks _ _ (nth_error_In _ _ Ej))).
+    apply negb_true_iff in Hall. congruence.
+  - exfalso. inversion Ej; subst. specialize (Hall (stoks q) (in_map stoks _ _ (nth_error_In _ _ Ei))).
+    apply negb_true_iff in Hall. rewrite clashb_sym in Hp. congruence.
   - f_equal. exact (IH Hr i j q q' Ei Ej Hp).
 Qed.
 
@@ -634,29 +722,29 @@ Proof.
 Qed.
 
 (* ---- digits in literal text ----------------------------------------------------------------- *)
-(* { "osc1a", "v2#3/x7:i", "p10/q/" -> { "b2", "c" } }: accepted (the digit runs of literal
-   text are collapsed in the keys like the enumerations: osc#a, v#/x#, p#/q/);
-   { "a1", "a2" } is rejected (both keys are a#: the predicate does not tell literal digit
-   runs apart), and so is the alias pair { "a#4b", "a01b" } (C18_lookup_digit_alias_refuted) *)
+(* { "osc1a", "osc2a", "v2#3/x7:i", "p10/q/" -> { "b2", "c" } }: accepted (literal digits are
+   compared like any other literal character); { "a1", "a12" } is rejected (a prefix), and so is
+   the alias pair { "a#4b", "a01b" } ('#4' against a literal digit: C18_lookup_digit_alias_refuted) *)
 Definition ex_digits : list sport :=
   [SPort [NameModel.Lit [111; 115; 99; 49; 97]] [] None None;
+   SPort [NameModel.Lit [111; 115; 99; 50; 97]] [] None None;
    SPort [NameModel.Lit [118; 50]; NameModel.Enum 3; NameModel.Lit [47; 120; 55]] [58; 105] None None;
    SPort [NameModel.Lit [112; 49; 48; 47]; NameModel.Lit [113; 47]] [] None
          (Some [SPort [NameModel.Lit [98; 50]] [] None None; SPort [NameModel.Lit [99]] [] None None])].
 
 Example ex_digits_ok :
   names_ok ex_digits = true /\
-  names_ok [SPort [NameModel.Lit [97; 49]] [] None None; SPort [NameModel.Lit [97; 50]] [] None None] = false /\
-  (exists out b, walk None (map render_port ex_digits) [] = WOk out b /\ length out = 6%nat /\
-                 In ([1%nat], [47; 118; 50; 50; 47; 120; 55]) out /\
-                 In ([2%nat; 0%nat], [47; 112; 49; 48; 47; 113; 47; 98; 50]) out) /\
-  apropos (map render_port ex_digits) [47; 118; 50; 50; 47; 120; 55] = AFound [1%nat] /\
-  apropos (map render_port ex_digits) [47; 112; 49; 48; 47; 113; 47; 98; 50] = AFound [2%nat; 0%nat].
+  names_ok [SPort [NameModel.Lit [97; 49]] [] None None; SPort [NameModel.Lit [97; 49; 50]] [] None None] = false /\
+  (exists out b, walk None (map render_port ex_digits) [] = WOk out b /\ length out = 7%nat /\
+                 In ([2%nat], [47; 118; 50; 50; 47; 120; 55]) out /\
+                 In ([3%nat; 0%nat], [47; 112; 49; 48; 47; 113; 47; 98; 50]) out) /\
+  apropos (map render_port ex_digits) [47; 118; 50; 50; 47; 120; 55] = AFound [2%nat] /\
+  apropos (map render_port ex_digits) [47; 112; 49; 48; 47; 113; 47; 98; 50] = AFound [3%nat; 0%nat].
 Proof.
   split; [vm_compute; reflexivity|]. split; [vm_compute; reflexivity|].
   split; [|split; vm_compute; reflexivity].
   eexists. eexists. split; [vm_compute; reflexivity|]. split; [reflexivity|].
-  split; [do 3 right; left; reflexivity | do 4 right; left; reflexivity].
+  split; [do 4 right; left; reflexivity | do 5 right; left; reflexivity].
 Qed.
 
 (* ---- a multi-component sub-tree name under the macro recursion callback -------------------- *)
